@@ -527,7 +527,16 @@ func VerifC07_ScheduledWhileBeingStarted() {
 	}).MaxDelay(0)
 	go taskQueueHandler()
 	go taskScheduleHandler()
+	go func() {
+		for {
+			taskTimeslot <- struct{}{}
+		}
+	}()
 	t0 := time.Now()
+	// the span between "marked as executing" and the start of the task's
+	// goroutine is held open (also natively) by holding the module's lock:
+	// the queue handler blocks where it asks whether the module is online
+	m.Lock()
 	switch rt.Choice("submit", 3) {
 	case 0:
 		t.Queue()
@@ -536,16 +545,11 @@ func VerifC07_ScheduledWhileBeingStarted() {
 	case 2:
 		t.StartASAP()
 	}
-	time.Sleep(u / 2) // the queue handler has taken the task and waits for a time slot
-	rt.Assert(runs == 0, "schedwhilestarting/waiting-for-its-time-slot")
+	time.Sleep(u / 2) // the queue handler has taken the task and is being held
+	rt.Assert(runs == 0, "schedwhilestarting/held-before-its-goroutine-starts")
 	at := t0.Add(6 * u)
 	t.Schedule(at)
-	taskTimeslot <- struct{}{} // the time slot comes
-	go func() {
-		for {
-			taskTimeslot <- struct{}{}
-		}
-	}()
+	m.Unlock()
 	time.Sleep(2 * u)
 	rt.Assert(runs == 1, "schedwhilestarting/queued-run-happened-and-nothing-started-before-the-scheduled-time")
 	// (another task is scheduled: the schedule handler looks at the schedule again)
